@@ -54,3 +54,13 @@ Theorem C12_only_implemented_suites : forall o s random sc1 sc2 sc3 sent e,
   new_session o s random sc1 sc2 sc3 = (sent, inl e) ->
   In (su_auth s) [1; 2; 3] /\ In (su_integ s) [1; 2; 4] /\ su_conf s = 1.
 Proof. exact new_session_implemented. Qed.
+(* the algorithm number the BMC confirms is the low six bits of the payload byte: the reserved bits 7:6 are ignored, bit 5
+   counts (so "proposed number + 32" is another algorithm and, by C12_other_triple_is_error, refused) *)
+Theorem C12_algorithm_number_is_six_bits : forall tag d0 d1 d2 d3 d4 d5 d6 d7 a,
+  d4 < 256 ->
+  deserialise_alg tag [d0; d1; d2; d3; d4; d5; d6; d7] = Ok a -> ap_alg a = d4 mod 64 /\ ap_alg a < 64.
+Proof. exact alg_number_is_six_bits. Qed.
+Theorem C12_reserved_bits_ignored : forall tag d0 d1 d2 d3 d4 d5 d6 d7 hi,
+  d4 < 64 -> hi < 4 ->
+  deserialise_alg tag [d0; d1; d2; d3; d4 + 64 * hi; d5; d6; d7] = deserialise_alg tag [d0; d1; d2; d3; d4; d5; d6; d7].
+Proof. exact alg_reserved_bits_ignored. Qed.
